@@ -24,6 +24,7 @@ import LyModel.Props.C01LybTree
 #print axioms LyModel.Props.C01Lyb.lyb_skip_top_frame
 #print axioms LyModel.Props.C01LybTree.lyb_tree_roundtrip
 #print axioms LyModel.Props.C01LybTree.lyb_tree_roundtrip_tagged_partial
+#print axioms LyModel.Props.C01LybTree.lyb_tree_roundtrip_single
 #print axioms LyModel.Props.C01LybTree.lyb_tree_roundtrip_tagged_fixed
 #print axioms LyModel.Props.C01LybTree.lyb_tree_roundtrip_gen
 #print axioms LyModel.Props.C01LybTree.rev_ok
